@@ -64,6 +64,38 @@ def axpyFlat (s : DenseShape) (alpha : α) (x y : Array α) : Array α :=
       let a := n + i * s.L + j
       wr y a (rd y a + alpha * rd x a)) y) y
 
+/-- `ForEach(f, a)`: `f(this, a)` on whole groups linearly, then on the partial group's real lanes -/
+def forEach2Flat (s : DenseShape) (f : α → α → α) (t a : Array α) : Array α :=
+  if s.L = 0 then t.mapIdx fun i ti => f ti (rd a i)
+  else
+    let n := (s.rows / s.L) * s.L * s.cols
+    let t := (List.range n).foldl (fun t i => wr t i (f (rd t i) (rd a i))) t
+    (List.range s.cols).foldl (fun t y => (List.range (s.rows % s.L)).foldl (fun t x =>
+      let k := n + y * s.L + x
+      wr t k (f (rd t k) (rd a k))) t) t
+
+/-- `ForEach(f, a, b)` -/
+def forEach3Flat (s : DenseShape) (f : α → α → α → α) (t a b : Array α) : Array α :=
+  if s.L = 0 then t.mapIdx fun i ti => f ti (rd a i) (rd b i)
+  else
+    let n := (s.rows / s.L) * s.L * s.cols
+    let t := (List.range n).foldl (fun t i => wr t i (f (rd t i) (rd a i) (rd b i))) t
+    if s.rows % s.L > 0 then
+      (List.range s.cols).foldl (fun t y => (List.range (s.rows % s.L)).foldl (fun t x =>
+        let k := n + y * s.L + x
+        wr t k (f (rd t k) (rd a k) (rd b k))) t) t
+    else t
+
+/-- `Max(x)` / `Min(x)`: every storage slot (`for (auto& y : data_)`), padding included -/
+def maxFlat (o : Ops α) (data : Array α) (x : α) : Array α := data.map fun y => cmax o y x
+def minFlat (o : Ops α) (data : Array α) (x : α) : Array α := data.map fun y => cmin o y x
+/-- `Fill(v)` / `operator=(T)` -/
+def fillFlat (data : Array α) (v : α) : Array α := data.map fun _ => v
+/-- `Copy(other)`: refuses a different storage size (`std::runtime_error`), otherwise takes other's storage -/
+def copyFlat (t other : Array α) : Option (Array α) := if other.size != t.size then none else some other
+/-- `Swap(other)` -/
+def swapFlat (t other : Array α) : Option (Array α × Array α) := if other.size != t.size then none else some (other, t)
+
 /-- the set of flat slots `ForEach`/`Axpy` visit (exactly the logical elements) -/
 def visitSlots (s : DenseShape) : List Nat :=
   if s.L = 0 then List.range (s.rows * s.cols)
